@@ -292,6 +292,29 @@ PROPS = {
              "unlink and 3 creates; a close with live handles of at least 3 different kinds. Distinct = hash of the decoded case.",
         assumptions=COMMON_ASSUME + ["SIGKILL of the writer models 'killed without running any exit handler'; the page cache survives by construction of the OS"],
     ),
+    "C16": dict(
+        bin="h_tree", sub="c16", level="exploration", engine="libfuzzer-tape",
+        technique="coverage-guided fuzzing (libFuzzer) and rapidcheck over one structure-aware decoder of API programs with valid, boundary and invalid arguments, executed under ASan + UBSan; every call must return or throw",
+        level_text="programs of 6-75 calls over the whole public API: the mutating steps of the program generator with invalid arguments of every "
+                   "class, interleaved with misuse steps (index getters at / past the end and at 2^64-1, raw and typed reads / writes with "
+                   "wrong ranks, offsets and counts outside the data, absurd sizes, other element types, never-written data, DataView "
+                   "windows and requests, tagged / feature / slice retrieval with arbitrary vectors, position conversion with NaN / inf / "
+                   "huge values, data frame access past rows and columns, uninitialised handles, handles to deleted entities, odd names, "
+                   "unit strings, validation, search functions), and handles used after close(). The same decoder is driven by rapidcheck "
+                   "(16 processes) and by libFuzzer (bytes = tape words; half of the processes start from an empty corpus, half from the "
+                   "committed seed inputs). Oracle: no ASan / UBSan report, no signal, no abort - only C++ exceptions; the file closes and "
+                   "reopens afterwards",
+        level_note="only crash- / leak- artifacts count, oom- / timeout- / slow-unit- are load noise and listed; libFuzzer runs are only "
+                   "approximately reproducible from the seed, the saved input (converted to a tape and replayed 3x) is the reproducible unit; "
+                   "sizes are small or absurd so that memory pressure is never the signal; -DNDEBUG as shipped",
+        quick=dict(cases=150, size=500, workers=16, timeout=2400),
+        thorough=dict(cases=6000, size=500, workers=16, timeout=14400),
+        fuzz=dict(bin="fz_api", max_len=4096, quick=dict(procs=8, runs=2500), thorough=dict(procs=16, runs=150000)),
+        rule="tape -> program. Non-trivial (counted on the rapidcheck side, libFuzzer executions are counted in evaluations and by its "
+             "coverage counters): at least one out-of-contract data / retrieval / frame call reached the backend and at least one call "
+             "threw. Distinct = hash of the decoded program.",
+        assumptions=COMMON_ASSUME + ["undefined behaviour that neither sanitizer can see (e.g. reads of uninitialised memory) is not detected"],
+    ),
     "C08": dict(
         bin="h_tree", sub="c08", level="exploration",
         technique="rapidcheck-generated API programs with invalid arguments; complete observable state (snapshot) compared before/after every call that threw",
